@@ -10,7 +10,7 @@
    allocator pools (LIFO free list, lease owner = session id) and the lease tables of the local DHCPv4/DHCPv6
    providers as far as they decide whether a message is answered and whether a release gives the address back.
    Addresses are opaque numbers.  [rep] = true: handleAAAResponse ignores an answer when no request is in flight
-   (fixes/C03_ipoe_aaa_unsolicited.patch); false: the code as it is. *)
+   (= /repo HEAD since 671f51c); false: the code before that fix. *)
 From OV Require Import Common.Base.
 
 Definition owner := (nat * nat)%type.            (* subscriber slot, incarnation (one per session id) *)
